@@ -26,6 +26,7 @@ var commands = map[string]func(args map[string]string){
 	"workers":   cmdWorkers,
 	"worker":    cmdWorker,
 	"exclusive": cmdExclusive,
+	"pubsub":    cmdPubSub,
 }
 
 // usage: harness <driver> -k v -k v ...
